@@ -171,10 +171,44 @@ def paths(depth):
     return out
 
 
+def chdir_case(kind, iface, base):
+    """relative directory 'static' configured while the working directory is `base`; requests after chdir to a tree that has
+    a directory of the same relative name"""
+    import baize.wsgi as W2
+    import baize.asgi as A2
+    from baize.exceptions import HTTPException as _H
+    other = os.path.join(base, "elsewhere")
+    if not os.path.isdir(os.path.join(other, "static")):
+        os.makedirs(os.path.join(other, "static"))
+        with open(os.path.join(other, "static", "a.txt"), "wb") as f:
+            f.write(b"A FILE OF ANOTHER TREE")
+        with open(os.path.join(other, "static", "only_here.txt"), "wb") as f:
+            f.write(b"ONLY IN THE OTHER TREE")
+    cwd = os.getcwd()
+    v = []
+    os.chdir(base)
+    try:
+        app = getattr(W2 if iface == "wsgi" else A2, kind)("static")
+        os.chdir(other)
+        for path, want in (("/a.txt", b"file a"), ("/only_here.txt", None)):
+            rec = run_wsgi(app, wsgi_environ("GET", path)) if iface == "wsgi" else run_asgi(app, asgi_scope("GET", path))
+            body = rec["body"]
+            nf = isinstance(rec["exception"], _H) and rec["exception"].status_code == 404
+            okay = (body == want) if want is not None else (nf or not body or b"OTHER TREE" not in body)
+            if not okay:
+                v.append("relative directory 'static' configured in <base>, request after chdir to <base>/elsewhere: GET %s -> %r %r" % (
+                    path, body[:40] if body else body, rec["exception"]))
+    finally:
+        os.chdir(cwd)
+    return v
+
+
 def replay(inputs):
     base = tempfile.mkdtemp(prefix="verif_c07_")
     try:
         build_tree(base)
+        if inputs.get("chdir_after_construction"):
+            return {"violated": chdir_case(inputs["kind"], inputs["iface"], base)}
         v, exp = check(inputs["kind"], inputs["iface"], base, inputs["path"])
         return {"violated": v, "expected": str(exp[0])}
     finally:
@@ -252,12 +286,21 @@ def bounded(tier, seed):
                         failures.append({"inputs": {"kind": kind, "iface": "wsgi", "path": path, "region": None, "relative": True}, "violated": v})
         finally:
             os.chdir(cwd)
+        # ... and the working directory CHANGES between construction and request: the configured directory is the one named at
+        # construction time (another tree with the same relative name must not be served instead)
+        for kind in ("Files", "Pages"):
+            for iface in ("wsgi", "asgi"):
+                evals += 2
+                v = chdir_case(kind, iface, base)
+                if v and len(failures) < 30:
+                    failures.append({"inputs": {"kind": kind, "iface": iface, "path": "/a.txt", "region": None,
+                                                "chdir_after_construction": True}, "violated": v})
     finally:
         shutil.rmtree(base, ignore_errors=True)
     return {"evaluations": evals, "distinct_nontrivial": len(distinct), "failures": failures, "samples": samples,
             "rule": "request paths built from the segments %s up to depth 2 exhaustively (depth 3: %s) plus hand-picked ones, on a real "
                     "temp tree with a parent secret, a sibling directory, directories named like pages (adir.html, idx/index.html), a "
                     "missing configured directory next to '<directory>.html', a non-UTF-8 request byte on WSGI; Files and Pages, both interfaces, absolute and "
-                    "relative directory; compared with a lexical reference resolver; an audit hook records every "
+                    "relative directory (also with a change of the working directory after construction); compared with a lexical reference resolver; an audit hook records every "
                     "open/stat so that nothing outside the directory is touched" % (SEGS, "exhaustively" if tier == "thorough" else "seeded sample of 400"),
             "exhaustive": False}
